@@ -337,9 +337,23 @@ def completeness(drv, text, counts, spec):
     return None
 
 
-def judge(drv, item, obs, counts):
+def _wrote_every_line(text, problem):
+    """the non-blank lines of the file are exactly the lines of all objects, in the writer's order"""
+    want = []
+    for name in ["message", "title"]:
+        if problem.get(name):
+            want += problem[name].get("lines", [])
+    for name in ["cells", "surfaces", "data", "modifiers"]:
+        for f in problem[name]:
+            want += f.get("lines", [])
+    got = text.split("\n")
+    return [l for l in got if l.strip()] == [l for l in want if l.strip()]
+
+
+def judge(drv, item, obs, ref):
     """First violation of C15 on the observation of the real code: a signature dict, or None."""
     sc = item["scenario"]
+    counts = ref["counts"]
     before = sc["dest"]
     after = obs["after"]
     fk = sc["fault"]["k"] if obs["fired"] else "none"
@@ -368,6 +382,12 @@ def judge(drv, item, obs, counts):
         return None
     if why == "card-after-terminator":
         return dict(base, **{"class": "card-after-terminator"})
+    if (why.startswith("unreadable") or why == "objects-missing") and _wrote_every_line(after["text"], ref["problem"]):
+        # the writer put every line of every object into the file, blocks delimited, nothing after the terminator:
+        # what cannot be read back is the text the formatters produced (C01/C09/C10's mechanisms, not the writer's)
+        mods = [l for f in ref["problem"]["modifiers"] for l in f.get("lines", [])]
+        site = "modifier-card-with-comment" if any("$" in l or l.lower().startswith("c ") for l in mods) else "other"
+        return {"mechanism": "format", "class": "unreadable-output", "site": site, "fault": fk, "dest": before["k"]}
     if obs["result"] is None:
         return dict(base, **{"class": "incomplete-on-success", "why": why.split(":")[0]})
     return dict(base, **{"class": "truncated" if fk in ("format", "object", "open") else "partial"})
@@ -548,7 +568,7 @@ def evaluate(drv, item, ref):
     res = drv.batch([{"op": "write", "problem": ref["problem"], "scenarios": [msc]}])[0]
     if "error" in res:
         raise MachineryError("model driver: " + res["error"])
-    return obs, canon_impl(obs), canon_model(res["results"][0]), judge(drv, item, obs, ref["counts"])
+    return obs, canon_impl(obs), canon_model(res["results"][0]), judge(drv, item, obs, ref)
 
 
 def shrink_item(drv, item, fails):
@@ -732,13 +752,13 @@ def run(chk):
                 continue
             # confirm in this process, then minimise (a case that does not reproduce is only counted)
             obs2 = run_impl(it)
-            if judge(drv, it, obs2, r["counts"]) != sig:
+            if judge(drv, it, obs2, r) != sig:
                 chk.count("flaky:oracle")
                 continue
 
             def fails(cand, sig=sig):
                 rr = reference(cand["spec"])
-                return judge(drv, cand, run_impl(cand), rr["counts"]) == sig
+                return judge(drv, cand, run_impl(cand), rr) == sig
 
             small = shrink_item(drv, it, fails)
             reported[key] = {"spec": small["spec"], "scenario": small["scenario"], "impl": _clip_obs(run_impl(small))}
@@ -811,7 +831,7 @@ _REFS = None
 
 def _impl_and_judge(item):
     obs = run_impl(item)
-    return obs, judge(_DRV, item, obs, _REFS[chash(item["spec"])]["counts"])
+    return obs, judge(_DRV, item, obs, _REFS[chash(item["spec"])])
 
 
 def _reference_safe(spec):
